@@ -196,6 +196,36 @@ func c20Shape(family string, p []int64) []byte {
 			sb.WriteString(unit)
 		}
 		sb.WriteString(`",1]}`)
+	case "escaped-siblings": // p: n siblings, pad bytes per sibling, variant bits — many sibling containers, each holding one escaped string, in a document of n*(pad+~30) bytes
+		n, pad, v := g(0), g(1), g(2)
+		sibObj, inKey, outerObj := v&1 == 0, v&2 != 0, v&4 != 0
+		padding := strings.Repeat("p", pad)
+		if outerObj {
+			sb.WriteByte('{')
+		} else {
+			sb.WriteByte('[')
+		}
+		for i := 0; i < n; i++ {
+			if i > 0 {
+				sb.WriteByte(',')
+			}
+			if outerObj {
+				fmt.Fprintf(&sb, `"m%d":`, i)
+			}
+			switch {
+			case sibObj && inKey:
+				fmt.Fprintf(&sb, `{"a\nb":1,"p":"%s"}`, padding)
+			case sibObj:
+				fmt.Fprintf(&sb, `{"a":"x\ny","p":"%s"}`, padding)
+			default:
+				fmt.Fprintf(&sb, `["x\ny","%s"]`, padding)
+			}
+		}
+		if outerObj {
+			sb.WriteByte('}')
+		} else {
+			sb.WriteByte(']')
+		}
 	case "small": // p: which
 		smalls := []string{`{"a":{},"b":{},"c":{},"d":{},"e":{}}`, `[1]`, `null`, `[1,`, `{"a":`, `[1]x`, `{}`, `[]`, `[[],[],[]]`, `"str"`, `1`, ``, `{"a":[{}]}`, `[{"a":1}]`, `[1e400]`, `{"a"}`}
 		return []byte(smalls[g(0)%len(smalls)])
